@@ -325,6 +325,13 @@ pub fn run_once(sc: &Scenario, sched: &Sched) -> (ExecSummary, Vec<u8>, Vec<u8>)
     (sum, sh.chosen[..n].to_vec(), sh.alts[..n].to_vec())
 }
 
+/// wall clock cap per scenario (and shard) when the scenario does not set its own: far above what any scenario needs on
+/// the unchanged tree (seconds), it only keeps a run on a broken tree - where every execution may run into its step
+/// horizon - from taking hours. A capped scenario is reported as not exhaustive. MAYVERIF_WALL_CAP_S overrides.
+fn default_wall_cap() -> f64 {
+    std::env::var("MAYVERIF_WALL_CAP_S").ok().and_then(|s| s.parse().ok()).unwrap_or(600.0)
+}
+
 #[derive(Default)]
 pub struct ScenarioResult {
     pub name: String,
@@ -528,8 +535,14 @@ pub fn explore(sc: &Scenario, opts: &Opts) -> ScenarioResult {
                             capped = Some(format!("execution cap {} reached in level {}", sc.max_execs, d));
                             break;
                         }
-                        if sc.max_wall > 0.0 && t0.elapsed().as_secs_f64() > sc.max_wall {
-                            capped = Some(format!("wall cap {}s reached in level {}", sc.max_wall, d));
+                        let wall_cap = if sc.max_wall > 0.0 { sc.max_wall } else { default_wall_cap() };
+                        if t0.elapsed().as_secs_f64() > wall_cap {
+                            capped = Some(format!("wall cap {}s reached in level {}", wall_cap, d));
+                            break;
+                        }
+                        // a scenario that has produced its three replay files per clause has said what it has to say
+                        if res.violations.len() >= 3 && t0.elapsed().as_secs_f64() > 20.0 {
+                            capped = Some(format!("stopped in level {}: {} violations recorded", d, res.violations.len()));
                             break;
                         }
                         if let Some(p) = it.next() {
